@@ -12,24 +12,53 @@ import json, os, subprocess, sys, shutil, concurrent.futures, re
 ENV = dict(os.environ, GOFLAGS="-mod=mod", GOPROXY="off", GOSUMDB="off", GOTOOLCHAIN="local")
 ENV.pop("GOWORK", None)
 REPO = "/repo"
+FAST = "--fast" in sys.argv   # scratch worktree + private verif dir: for iteration only
 
-def sh(cmd, cwd=REPO, timeout=900):
-    p = subprocess.run(cmd, shell=True, cwd=cwd, env=ENV, capture_output=True, text=True, timeout=timeout)
+def sh(cmd, cwd=None, timeout=900):
+    p = subprocess.run(cmd, shell=True, cwd=cwd or REPO, env=ENV, capture_output=True, text=True, timeout=timeout)
     return p.returncode, p.stdout + p.stderr
 
 def run_check(pid):
-    rc, out = sh("./run.sh %s quick" % pid, cwd="/verif")
+    if FAST:
+        rc, out = sh("%s -prop %s -tier quick -repo %s -verif %s" % (EVBIN, pid, REPO, VDIR), cwd="/verif")
+        vfile = "%s/evidence/%s.violations.json" % (VDIR, pid)
+    else:
+        rc, out = sh("./run.sh %s quick" % pid, cwd="/verif")
+        vfile = "/verif/evidence/%s.violations.json" % pid
     viol = []
     if rc != 0:
         try:
-            d = json.load(open("/verif/evidence/%s.violations.json" % pid))
+            d = json.load(open(vfile))
             viol = [(o["rule"], o["key"]) for o in d["failing_obligations"]]
         except Exception as e:
             viol = [("?", "no violations file: %s" % e)]
     return pid, rc, viol
 
+EVBIN = VDIR = None
+
 def main():
+    global REPO, EVBIN, VDIR
     d = os.path.abspath(sys.argv[1])
+    if FAST:
+        import tempfile
+        base = tempfile.mkdtemp(prefix="seedfast-")
+        REPO = os.path.join(base, "repo")
+        subprocess.run("git -C /repo worktree add -q --detach %s HEAD" % REPO, shell=True, check=True)
+        VDIR = os.path.join(base, "verif")
+        os.makedirs(os.path.join(VDIR, "evidence"))
+        shutil.copy("/verif/known_findings.txt", VDIR)
+        if os.path.isdir("/verif/mutants"): pass
+        EVBIN = os.path.join(base, "evcheck")
+        shutil.copy("/verif/bin/evcheck", EVBIN)
+        try:
+            _main(d)
+        finally:
+            subprocess.run("git -C /repo worktree remove --force %s" % REPO, shell=True)
+            shutil.rmtree(base, ignore_errors=True)
+        return
+    _main(d)
+
+def _main(d):
     props = ["C%02d" % i for i in range(1, 21)]
     if "--props" in sys.argv:
         props = sys.argv[sys.argv.index("--props") + 1].split(",")
@@ -37,6 +66,7 @@ def main():
     rc, out = sh("git status --porcelain")
     if out.strip():
         print("REPO NOT CLEAN, refusing:", out); sys.exit(2)
+    demo_dst = demo_cmd = None
     res = {"dir": d, "property": meta.get("property")}
     added = []
     try:
